@@ -200,10 +200,11 @@ def main():
 
     floor = getattr(mod, 'FLOOR', {}).get(tier_for_search, 2)
     wall = time.time() - t0
-    common.write_evidence(pid, args.tier, seed, state, theorems, outcome, wall, nviol,
-                          'cd /verif/lean && lake build && lake env lean <Audit: #print axioms of the %d theorems of %s>'
-                          % (len(theorems), mod.MODULE),
-                          extra_assumptions=getattr(mod, 'ASSUMPTIONS', []))
+    if not os.environ.get('VERIF_NO_EVIDENCE'):      # (set by tools/automut.py, which runs checks in parallel on scratch trees)
+        common.write_evidence(pid, args.tier, seed, state, theorems, outcome, wall, nviol,
+                              'cd /verif/lean && lake build && lake env lean <Audit: #print axioms of the %d theorems of %s>'
+                              % (len(theorems), mod.MODULE),
+                              extra_assumptions=getattr(mod, 'ASSUMPTIONS', []))
     if exit_code == 0 and len(outcome.nontrivial) < floor:
         print('BROKEN: inconclusive - only %d distinct non-trivial cases (floor %d)' % (len(outcome.nontrivial), floor))
         return 2
